@@ -629,6 +629,9 @@ def run(c, facts, tier):
     from .. import glue
 
     glue.obligations(c, facts, b, "C01")
+    from .. import mir as _mir
+
+    _mir.order_rule(c, facts, "C01.lex-whole", [lexfn, entry], "tokens and sub-trees must keep the order of the words")
     # the folds clone the first operand (`init.clone()`), the entry clones the result: the copy must be the tree
     badc = []
     for tname in (spec["expr_enum"], opn, "Test", "Action"):
